@@ -42,6 +42,9 @@ func cmdRun(argv []string) int {
 	pkgs := fs.String("pkgs", "", "packages to load (default: package of entry)")
 	known := fs.String("known", "", "comma separated known finding ids")
 	dump := fs.String("json", "", "write result JSON")
+	forkstats := fs.Bool("forkstats", false, "print fork sites")
+	subst := fs.String("subst", "", "a=b,c=d function substitutions")
+	props := fs.String("props", "", "comma separated property ids enabled in the harness")
 	fs.Parse(argv)
 	var ia []int
 	if *args != "" {
@@ -65,6 +68,20 @@ func cmdRun(argv []string) int {
 	fmt.Fprintf(os.Stderr, "loaded in %.1fs\n", time.Since(t0).Seconds())
 	spec := RunSpec{Entry: *entry, Args: ia, Unwind: *unwind, Workers: *workers, Split: *split, Fuse: *fuse, XCheck: *xcheck, Timeout: *timeout,
 		Known: map[string]bool{}}
+	spec.ForkStats = *forkstats
+	if *subst != "" {
+		spec.Subst = map[string]string{}
+		for _, kv := range strings.Split(*subst, ",") {
+			p := strings.SplitN(kv, "=", 2)
+			spec.Subst[p[0]] = p[1]
+		}
+	}
+	if *props != "" {
+		spec.Props = map[string]bool{}
+		for _, k := range strings.Split(*props, ",") {
+			spec.Props[k] = true
+		}
+	}
 	if *merge != "" {
 		spec.MergeAt = strings.Split(*merge, ",")
 	}
@@ -91,5 +108,3 @@ func cmdRun(argv []string) int {
 	}
 	return 0
 }
-
-func cmdCheck(argv []string) int { return 2 }
